@@ -60,12 +60,14 @@ def shards(tier):
             out.append({'kind': 'replay', 'bi': bi, 'behaviour': b, 'family': fam, 'tier': tier})
     out.append({'kind': 'bfs', 'depth': 4 if tier == 'quick' else 5, 'tier': tier})
     out.append({'kind': 'inherit', 'tier': tier})
+    out.append({'kind': 'bfs-services', 'depth': 4 if tier == 'quick' else 5, 'tier': tier})
     return out
 
 
 def finish(tier, agg):
     m = model()
-    return {'states': m['states'] + agg.cov.get('bfs_states', 0), 'transitions': m['transitions'] + agg.cov.get('bfs_transitions', 0),
+    return {'states': m['states'] + agg.cov.get('bfs_states', 0) + agg.cov.get('svc_bfs_states', 0),
+            'transitions': m['transitions'] + agg.cov.get('bfs_transitions', 0) + agg.cov.get('svc_bfs_transitions', 0),
             'traces_validated_against_impl': agg.cov.get('replays', 0) + agg.cov.get('bfs_histories', 0),
             'model_behaviours': len(m['behaviours']), 'tlc_states': m['states'], 'tlc_transitions': m['transitions'],
             'checker_cmd': m['cmd'], 'invariants': ['CreatedFirst', 'AtMostOnce', 'FuncAfterCall', 'Done'],
@@ -244,6 +246,8 @@ def run_shard(shard, only=None):
                     res['samples'].append({'behaviour': beh, 'family': fam, 'transport': transport, 'application_trace': traces['application']})
     elif shard['kind'] == 'bfs':
         bfs_registration(shard['depth'], res, shard, only)
+    elif shard['kind'] == 'bfs-services':
+        bfs_services(shard['depth'], res, shard, only)
     else:
         inheritance(res, shard)
     from vf.props.c01 import compress
@@ -321,6 +325,137 @@ def bfs_registration(depth, res, shard, only):
     res['cov']['bfs_transitions'] = ntrans
     res['cov']['bfs_histories'] = nhist
     res['outcomes']['bfs-histories'] = nhist
+
+
+def bfs_services(depth, res, shard, only):
+    """BFS over histories of operations on REAL service classes: ('sub', parents) creates a subclass of one or two
+    existing services; ('listen', service, event, listener) registers a service-level listener.  Reference model: a
+    subclass starts with its bases' listeners (in base order, de-duplicated) and registration touches that service
+    only.  After every history every service's method is called through an application and the listeners that fired
+    are compared with the model.  Listeners registered on an ancestor AFTER the subclass was created are unspecified
+    (filtered out unless the model has them anyway)."""
+    import spyne.service as S
+    from spyne.decorator import rpc
+    from spyne.model.primitive import Integer
+    from spyne.application import Application
+    from spyne.protocol.json import JsonDocument
+    EVS = ('method_call', 'method_return_object')
+    MAXS = 4
+
+    def enabled(model):
+        n = len(model)
+        ops = []
+        if n < MAXS:
+            for a in range(n):
+                ops.append(('sub', (a,)))
+            for a in range(n):
+                for b_ in range(n):
+                    if a != b_ and not (a in model[b_]['anc'] or b_ in model[a]['anc']):
+                        ops.append(('sub', (a, b_)))
+        for sv in range(n):
+            for ev in EVS:
+                for l in (0, 1):
+                    ops.append(('listen', sv, ev, l))
+        return ops
+
+    def apply_model(model, op):
+        model = [dict(anc=set(m['anc']), h={e: list(m['h'][e]) for e in EVS}, late={e: set(m['late'][e]) for e in EVS}) for m in model]
+        if op[0] == 'sub':
+            anc = set()
+            h = {e: [] for e in EVS}
+            for a in op[1]:
+                anc |= {a} | model[a]['anc']
+                for e in EVS:
+                    for l in model[a]['h'][e]:
+                        if l not in h[e]:
+                            h[e].append(l)
+            model.append(dict(anc=anc, h=h, late={e: set() for e in EVS}))
+        else:
+            _, sv, ev, l = op
+            if l not in model[sv]['h'][ev]:
+                model[sv]['h'][ev].append(l)
+            model[sv]['late'][ev].discard(l)
+            for i, m in enumerate(model):
+                if sv in m['anc'] and l not in m['h'][ev]:
+                    m['late'][ev].add(l)
+        return model
+
+    def build(hist):
+        calls = []
+        listeners = {(e, l): (lambda ctx, e=e, l=l: calls.append((e, l))) for e in EVS for l in (0, 1)}
+
+        def mkfn(i):
+            def fn(ctx):
+                calls.append(('FUNC', i))
+                return 1
+            fn.__name__ = 'm%d' % i
+            return fn
+        base = getattr(S, 'Service', S.ServiceBase)
+        svcs = [S.ServiceBaseMeta('V0', (base,), {'m0': rpc(_returns=Integer)(mkfn(0))})]
+        for op in hist:
+            if op[0] == 'sub':
+                i = len(svcs)
+                svcs.append(S.ServiceBaseMeta('V%d' % i, tuple(svcs[a] for a in op[1]), {'m%d' % i: rpc(_returns=Integer)(mkfn(i))}))
+            else:
+                svcs[op[1]].event_manager.add_listener(op[2], listeners[(op[2], op[3])])
+        return svcs, calls
+
+    def canon(model):
+        return tuple((tuple(sorted(m['anc'])), tuple(tuple(m['h'][e]) for e in EVS), tuple(tuple(sorted(m['late'][e])) for e in EVS)) for m in model)
+    m0 = [dict(anc=set(), h={e: [] for e in EVS}, late={e: set() for e in EVS})]
+    seen = {canon(m0)}
+    frontier = collections.deque([([], m0)])
+    nstates, ntrans, ncalls = 1, 0, 0
+    while frontier:
+        hist, model = frontier.popleft()
+        if len(hist) >= depth:
+            continue
+        for op in enabled(model):
+            h2 = hist + [list(op) if op[0] == 'listen' else ['sub', list(op[1])]]
+            if only is not None and only != h2:
+                if only[:len(h2)] != h2:
+                    continue
+            m2 = apply_model(model, op)
+            k = canon(m2)
+            fresh = k not in seen
+            if not fresh and only is None:
+                ntrans += 1
+                continue
+            if only is None or only == h2:
+                ntrans += 1
+                try:
+                    svcs, calls = build([tuple(x) if x[0] == 'listen' else ('sub', tuple(x[1])) for x in h2])
+                    for i, sv in enumerate(svcs):
+                        app = Application([sv], tns=TNS, name='A%d' % i, in_protocol=JsonDocument(), out_protocol=JsonDocument())
+                        srv = drv.make_server(app)
+                        del calls[:]
+                        o = drv.call_server(srv, ('{"m%d": {}}' % i).encode('ascii'))
+                        ncalls += 1
+                        res['evaluations'] += 1
+                        got = [c for c in calls if not (c[0] in EVS and c[1] in m2[i]['late'][c[0]])]
+                        want = [('method_call', l) for l in m2[i]['h']['method_call']] + [('FUNC', i)] + \
+                               [('method_return_object', l) for l in m2[i]['h']['method_return_object']]
+                        if got != want or o.escaped is not None:
+                            kind = 'leak' if len(got) > len(want) else ('lost' if len(got) < len(want) else 'order')
+                            res['violations'].append({'sig': 'C14|service-listeners|%s' % kind,
+                                                      'what': 'after %s a call of service V%d ran %s, the reference model says %s (escaped: %r)' % (
+                                                          h2, i, got, want, o.escaped),
+                                                      'case': {'shard': shard, 'only': h2}, 'count': 1})
+                        else:
+                            res['nontrivial'] += 1
+                except Exception as e:
+                    res['violations'].append({'sig': 'C14|service-listeners-raises|%s' % type(e).__name__,
+                                              'what': 'history %s raised %r' % (h2, e), 'case': {'shard': shard, 'only': h2}, 'count': 1})
+            if fresh:
+                seen.add(k)
+                nstates += 1
+                frontier.append((h2, m2))
+            elif only is not None:
+                frontier.append((h2, m2))
+    res['cov']['svc_bfs_states'] = nstates
+    res['cov']['svc_bfs_transitions'] = ntrans
+    res['cov']['svc_bfs_calls'] = ncalls
+    res['outcomes']['svc-bfs'] = nstates
 
 
 def inheritance(res, shard):
